@@ -47,6 +47,13 @@ func (k Keeper) ApplyAndReturnValidatorSetUpdates(ctx context.Context) ([]abci.V
 
 		// zero power validator removed from validator set
 		if newPower <= 0 {
+			// a validator that never was in the last validator set (added and removed within the
+			// same block) has nothing to report to consensus; purge its record right away
+			if !found {
+				if err := k.RemoveValidator(ctx, valAddr); err != nil {
+					return nil, err
+				}
+			}
 			continue
 		}
 
